@@ -43,8 +43,11 @@ def ode_taylor(ctx, derivs, x0, y0, tol_prec, n):
     # XXX: do this right for zeros
     radius = ctx.one
     for ts in ser:
-        if ts[-1]:
-            radius = min(radius, ctx.nthroot(tol/abs(ts[-1]), n))
+        # use the last two coefficients (one of them vanishes, or nearly
+        # vanishes, e.g. for even or odd solutions)
+        for k in (n, n-1):
+            if k > 0 and ts[k]:
+                radius = min(radius, ctx.nthroot(tol/abs(ts[k]), k))
     radius /= 2  # XXX
     return ser, x0+radius
 
